@@ -114,6 +114,16 @@ def oracle(ck):
     out = df_detrend(df, columns=["a", "s"], order=2)
     if not ("a_detrended" in out and "b_detrended" not in out and "s_detrended" not in out and np.allclose(out["a_detrended"].to_numpy(), polynomial_detrend(df["a"].to_numpy(), order=2)) and np.array_equal(out["a"].to_numpy(), df["a"].to_numpy())):
         ck.violation("df_detrend does not detrend exactly the selected numeric columns", dict(columns=["a", "s"]), tag="df")
+    # grids that are not float64 (integer frequencies, float32 arrays): band edges are compared as the numbers given, not cast to the grid's type
+    for lab, fg in (("integer grid", np.arange(0, 51)), ("float32 grid", np.linspace(0, 5, 51).astype(np.float32))):
+        ag = 1.0 + 0.3 * np.sin(np.arange(len(fg)))
+        f64 = np.asarray(fg, float)
+        for lo, hi in ((2.5, 7.5), (0.6, 3.05), (1.0, 4.0), (0.31, 0.69)):
+            sel = (f64 >= lo) & (f64 <= hi)
+            want = math.sqrt(float(np.sum(0.5 * (ag[sel][1:] ** 2 + ag[sel][:-1] ** 2) * np.diff(f64[sel])))) if sel.sum() > 1 else 0.0
+            got = float(integral_rms(fg, ag, (lo, hi)))
+            if abs(got - want) > 1e-6 * (1 + want):
+                ck.violation("integral_rms on an %s, band (%r, %r): %r but the trapezoid over the in-band points gives %r" % (lab, lo, hi, got, want), dict(grid=lab, band=(lo, hi)), tag="grid-dtype")
     # DataFrame wrapper on frames whose index is not 0..n-1 (time-stamped, sliced, filtered, re-sorted): row by row, not by label;
     # in place or not, orders 0..3; applied twice it changes nothing
     basef = pd.DataFrame({"a": 0.02 * np.arange(80.0) ** 2 + np.sin(np.arange(80) / 3.0), "b": np.cos(np.arange(80) / 5.0) + 0.3 * np.arange(80)})
@@ -142,6 +152,15 @@ def oracle(ck):
         band = (float(r.f[3]), float(r.f[-4]))
         if abs(r.get_rms(band) - float(integral_rms(r.f, r.asd, band))) > 1e-12 * (1 + r.get_rms(band)):
             ck.violation("get_rms differs from integral_rms of the result's own ASD", dict(band=band), tag="get_rms")
+        # several bands queried on the SAME result, edges that differ only below a millihertz (slow data): each is its own integral
+        rl = SpectrumAnalyzer(x[:6000], 0.5, Jdes=60, Kdes=8, order=0, scheduler="ltf", win="hann").compute()
+        fl = np.asarray(rl.f, float)
+        qs = [(float(fl[1]), float(fl[6])), (float(fl[2]), float(fl[9])), (float(fl[1]) * 1.01, float(fl[12])), (float(fl[4]), float(fl[5])), (float(fl[1]), float(fl[6]))]
+        for bq in qs:
+            got = rl.get_rms(bq); want = float(integral_rms(rl.f, rl.asd, bq))
+            if abs(got - want) > 1e-12 * (1 + abs(want)):
+                ck.violation("get_rms(%r) on a result already queried for other bands returns %r, the trapezoid integral is %r" % (bq, got, want), dict(bands=qs, fs=0.5), tag="get_rms-repeat")
+                break
         full = r.get_rms()
         if abs(full / float(np.std(x)) - 1) > 0.06:
             ck.violation("full-band RMS %r differs from the time-domain RMS %r by more than a few percent" % (full, float(np.std(x))), dict(N=N), tag="parseval")
